@@ -169,11 +169,6 @@ func (r FileReplacer) Replace(d data.Data, cl Changelog) (*ast.File, error) {
 		file.Name.Name = r.Package
 	}
 
-	newImports, err := r.Imports.Replace(d, cl, file)
-	if err != nil {
-		return nil, err
-	}
-
 	// Matches are recorded in pre-order. Replace them innermost-first so
 	// that a replacement made inside a node is still in place when that
 	// node (or the list holding it) is itself rebuilt.
@@ -201,6 +196,13 @@ func (r FileReplacer) Replace(d data.Data, cl Changelog) (*ast.File, error) {
 		if give.Type().AssignableTo(v.Type()) {
 			v.Set(give)
 		}
+	}
+
+	// Imports are added only now: a new import declaration shifts
+	// file.Decls, and the matches above refer to declarations by index.
+	newImports, err := r.Imports.Replace(d, cl, file)
+	if err != nil {
+		return nil, err
 	}
 
 	err = r.Imports.Cleanup(d, file, newImports)
